@@ -1,6 +1,6 @@
 """Generic runner for the server-family properties: model cfg -> histories -> scenarios (+ hand-written
 generators for what the model's alphabet abstracts away) -> real server -> H2ServerTrace."""
-import json, random
+import json, os, random
 import srvfam, vlib
 
 MAXWIN = 2**31 - 1
@@ -75,6 +75,28 @@ def gen_c01_extra(ctx, thorough):
                     steps.append({"op": "wu", "sid": 1, "inc": 100000})
                     steps.append({"op": "wu", "sid": 0, "inc": 100000})
                 out.append({'tag': 'shape', 'cfg': {'maxConc': 4}, 'steps': steps})
+    # (2b) response header blocks that fill their last frame exactly (k * MAX_FRAME_SIZE octets): where the block ends and
+    # where a frame ends coincide.  The size of the encoded block is the server's business, so it is measured first
+    # (the filler is a character whose Huffman code has 8 bits: one octet per character either way).
+    for mfs in (16384, 20000):
+        probe = {'id': 1, 'tag': 'probe', 'cfg': {'maxConc': 4},
+                 'steps': ([{"op": "settings", "pairs": [[5, mfs]]}] if mfs != 16384 else []) + req(1) + [finish(1, n=1, hdrs_=[["x-fill", "Z" * 30000]])]}
+        pf = os.path.join(ctx.scratch, 'probe%d.scen' % mfs)
+        vlib.write_ndjson(pf, [probe])
+        ctx.h2v(['srv', '--in', pf, '--out', pf + '.tr'])
+        b0 = 0
+        for ln in open(pf + '.tr.0'):
+            for e in json.loads(ln)['evs']:
+                if e['k'] == 'recv' and e['f']['ty'] in (1, 9) and e['f']['sid'] == 1:
+                    b0 += e['f']['len']
+        if b0 < 30000:
+            raise vlib.Inconclusive('could not measure the response header block (got %d)' % b0)
+        for k in (2, 3):
+            for d in (-1, 0, 1, 2):
+                L = 30000 + (k * mfs - b0) + d
+                steps = ([{"op": "settings", "pairs": [[5, mfs]]}] if mfs != 16384 else []) + req(1) + req(3) + \
+                    [finish(1, n=5, hdrs_=[["x-fill", "Z" * L]]), finish(3, n=2, hdrs_=[["x-after", "1"]])]
+                out.append({'tag': 'block-fills-frame', 'cfg': {'maxConc': 4}, 'steps': steps})
     # (3) request bodies: chunkings, padding, empty DATA frames, multi-frame
     for body, chunks in ((1, None), (100, [0, 40, 0, 60]), (100, [100, 0]), (20000, [16000, 4000]), (40000, [16000, 16000, 8000]), (5, [1, 1, 1, 1, 1])):
         for pad in (-1, 0, 5):
@@ -137,6 +159,25 @@ def gen_c06_extra(ctx, thorough):
     for i in range(8):
         steps.append({"op": "wu", "sid": 0, "inc": 16000})
     out.append({'tag': 'share', 'cfg': {'maxConc': 4}, 'steps': steps})
+    # k responses blocked at the same time, released by ONE window change (connection WINDOW_UPDATE, or INITIAL_WINDOW_SIZE):
+    # every one of them must finish - whichever finishes first, in whatever order the server keeps them
+    for k in (2, 3, 4, 5, 8):
+        sids = [2 * i + 1 for i in range(k)]
+        for variant in range(3 if thorough else 2):
+            order = sids[:]
+            rng.shuffle(order)
+            steps = [{"op": "settings", "pairs": [[4, 1000000]]}]
+            for sid in sids:
+                steps += req(sid)
+            steps += [finish(sid, n=rng.choice([30000, 40000, 66000]), kind=rng.choice(['buf', 'stream'])) for sid in order]
+            steps += [{"op": "wu", "sid": 0, "inc": 2000000}]
+            out.append({'tag': 'release-conn', 'cfg': {'maxConc': 10}, 'steps': steps})
+            steps = [{"op": "settings", "pairs": [[4, 1000]]}]
+            for sid in sids:
+                steps += req(sid)
+            steps += [finish(sid, n=rng.choice([5000, 7000]), kind=rng.choice(['buf', 'stream'])) for sid in order]
+            steps += [{"op": "settings", "pairs": [[4, 100000]]}]
+            out.append({'tag': 'release-iw', 'cfg': {'maxConc': 10}, 'steps': steps})
     return out
 
 
@@ -244,7 +285,7 @@ def gen_c10_extra(ctx, thorough):
 FAM = {
     'C01': dict(cfg=('H2Server_c01_q.cfg', 'H2Server_c01_t.cfg'), budget=(900, 25000), units=[1, 9000],
                 hcfg=lambda u: {'maxConc': 2, 'unit': u}, extra=gen_c01_extra, props={'C01'}),
-    'C06': dict(cfg=('H2Server_c06_q.cfg', 'H2Server_c06_t.cfg'), budget=(900, 25000), units=[13107],
+    'C06': dict(cfg=('H2Server_c06_q.cfg', 'H2Server_c06_t.cfg'), cfgs_t=('H2Server_c06b_t.cfg',), budget=(900, 25000), units=[13107],
                 hcfg=lambda u: {'maxConc': 2, 'unit': u, 'initWin': 2 * u}, extra=gen_c06_extra, props={'C06'}),
     'C10': dict(cfg=('H2Server_c10_q.cfg', 'H2Server_c10_t.cfg'), budget=(700, 20000), units=[1],
                 hcfg=lambda u: {'maxConc': 2, 'unit': u, 'initWin': 2, 'maxBody': 3}, extra=gen_c10_extra, props={'C10'}),
@@ -315,6 +356,12 @@ def gen_c09_extra(ctx, thorough):
     # many discarded DATA frames in flight must not starve the connection window (credit must come back)
     big = [{"op": "data", "sid": 3, "n": 16000, "es": False, "pad": -1} for _ in range(320 if thorough else 290)]
     wrap('inflight-data-credit', [{"op": "hdr", "sid": 3, "fields": hdrs(3, "POST", [["X-Bad", "1"]]), "es": False, "pad": -1}, {"op": "burst", "steps": big}], k=1)
+    # ... and neither must their padding and Pad Length octets: ~4.4 MB of them in frames that carry one octet of data each,
+    # on a stream reset for its body size
+    padded = [{"op": "data", "sid": 3, "n": 1, "es": False, "pad": 255} for _ in range(17500)]
+    bursts = [{"op": "burst", "steps": padded[i:i + 500]} for i in range(0, len(padded), 500)]
+    wrap('inflight-padding-credit', [{"op": "hdr", "sid": 3, "fields": hdrs(3, "POST"), "es": False, "pad": -1},
+                                     {"op": "data", "sid": 3, "n": 1500, "es": False, "pad": -1}] + bursts, cfg={'maxBody': 1000}, k=1)
     return out
 
 
@@ -352,6 +399,13 @@ def gen_c13_extra(ctx, thorough):
         steps = [{"op": "hdr", "sid": 1, "fields": f, "es": False, "pad": -1}, {"op": "data", "sid": 1, "n": body, "es": True, "pad": -1, "chunks": [body // 2, body - body // 2]}]
         steps += req(3) + [finish(3, n=1)]
         out.append({'tag': 'body-limit', 'cfg': cfg, 'steps': steps})
+    # a body that never ends: declared small (or not at all), streamed far beyond the limit without END_STREAM
+    for cl in (None, 100, 1500, 2000):
+        f = hdrs(1, "POST", cl=cl)
+        steps = [{"op": "hdr", "sid": 1, "fields": f, "es": False, "pad": -1}]
+        steps += [{"op": "data", "sid": 1, "n": 1500, "es": False, "pad": -1} for _ in range(30)]
+        steps += req(3) + [finish(3, n=1)]
+        out.append({'tag': 'body-endless', 'cfg': cfg, 'steps': steps})
     # control-frame floods with slow handlers and a peer that reads slowly
     for kind in ('ping', 'settings'):
         fl = [({"op": "ping", "n": i} if kind == 'ping' else {"op": "settings", "pairs": [[3, 10]]}) for i in range(N)]
@@ -404,6 +458,37 @@ def gen_c14_extra(ctx, thorough):
             steps.append({"op": "rst", "sid": 5, "code": 8})
     steps += [{"op": "data", "sid": 1, "n": 0, "es": True, "pad": -1}, {"op": "data", "sid": 3, "n": 0, "es": True, "pad": -1}, finish(1), finish(3)]
     out.append({'tag': 'interleaved', 'cfg': {'maxConc': 4, 'maxBody': 64 * mb}, 'steps': steps})
+    return out
+
+
+def gen_frame_shapes(ctx, thorough, nquick):
+    """Every small shape of every frame type: type x subset of its defined flags x payload length 0..10 x filler,
+    on a new stream, on an open one and on stream 0 - then an ordinary request, which must still be served or the
+    connection properly ended (no panic, no wedge, reaction within RFC7540!Allowed); the quick tier samples the
+    product, the thorough tier takes all of it."""
+    rng = ctx.rng
+    out = []
+    defined = {0: [1, 8], 1: [1, 4, 8, 0x20], 2: [], 3: [], 4: [1], 5: [4, 8], 6: [1], 7: [], 8: [], 9: [4], 10: []}
+    shapes = []
+    for ty, fl in defined.items():
+        subsets = [0]
+        for b in fl:
+            subsets += [x | b for x in subsets]
+        for flags in subsets:
+            for ln in range(0, 11):
+                for fill in ('zero', 'ff', 'count', 'len'):
+                    shapes.append((ty, flags, ln, fill))
+    if not thorough:
+        shapes = rng.sample(shapes, nquick) + [s for s in shapes if s[0] == 1 and s[1] & 0x28 == 0x28 and s[3] in ('zero', 'len')][:40]
+    for ty, flags, ln, fill in shapes:
+        payload = {'zero': [0] * ln, 'ff': [255] * ln, 'count': list(range(1, ln + 1)), 'len': [max(ln - 1, 0)] + [0] * max(ln - 1, 0)}[fill][:ln]
+        where = rng.choice(['new', 'open', 'zero'])
+        steps = []
+        if where == 'open':
+            steps += [{"op": "hdr", "sid": 1, "fields": hdrs(1, "POST"), "es": False, "pad": -1}]
+        steps += [{"op": "raw", "ty": ty, "fl": flags, "sid": 0 if where == 'zero' else (1 if where == 'open' else 3), "payload": payload}]
+        steps += req(5) + [finish(5, n=2), {"op": "ping", "n": 1}, {"op": "close"}]
+        out.append({'tag': 'frame-shape', 'cfg': {'maxConc': 4}, 'steps': steps})
     return out
 
 
@@ -464,6 +549,7 @@ def gen_c17_extra(ctx, thorough):
         for fr in late:
             steps = pre + [fr] + req(3) + [finish(3, n=2), {"op": "ping", "n": 1}, {"op": "close"}]
             out.append({'tag': 'late-' + name, 'cfg': {'maxConc': 4}, 'steps': steps})
+    out += gen_frame_shapes(ctx, thorough, 260)
     # more handlers running than the completion queue holds when the peer disconnects
     for nh in (140, 200):
         steps = []
@@ -585,6 +671,28 @@ def gen_c20_bodies(ctx, thorough):
                           {"op": "data", "sid": 3, "n": n, "es": True, "pad": pad, **({"chunks": chunks} if chunks else {})}, finish(3, n=1)]
                 steps += req(5) + [finish(5, n=1)]
                 out.append({'tag': 'c20-body', 'cfg': {'maxConc': 4, 'noconnerr': True}, 'steps': steps})
+    # the same comparison wherever the request ends: on its HEADERS, on an empty DATA frame, on trailers
+    for n in (0, 7):
+        for delta in (0, 1, -1, 5):
+            cl = n + delta
+            if cl < 0:
+                continue
+            for end in ('hdr', 'emptydata', 'trailers', 'trailers-split'):
+                if end == 'hdr' and n:
+                    continue
+                steps = req(1, extra=[["x-a", "b"]]) + [finish(1, n=1)]
+                steps += [{"op": "hdr", "sid": 3, "fields": hdrs(3, "POST", cl=cl), "es": end == 'hdr', "pad": -1}]
+                if n:
+                    steps += [{"op": "data", "sid": 3, "n": n, "es": False, "pad": -1}]
+                if end == 'emptydata':
+                    steps += [{"op": "data", "sid": 3, "n": 0, "es": True, "pad": -1}]
+                elif end.startswith('trailers'):
+                    t = {"op": "hdr", "sid": 3, "fields": [["x-trailer", "t"]], "es": True, "pad": -1}
+                    if end == 'trailers-split':
+                        t["split"] = [2]
+                    steps += [t]
+                steps += [finish(3, n=1)] + req(5) + [finish(5, n=1)]
+                out.append({'tag': 'c20-end', 'cfg': {'maxConc': 4, 'noconnerr': True}, 'steps': steps})
     return out
 
 
@@ -612,6 +720,12 @@ def run(ctx, pid):
     thorough = ctx.tier == 'thorough'
     cfg = fam['cfg'][1 if thorough else 0]
     hists = srvfam.gen_from_model(ctx, cfg, workers=None if thorough else 1) if cfg else []
+    wide = set()
+    if thorough:
+        for c2 in fam.get('cfgs_t', ()):      # further bounded configurations of the same model (three streams), thorough tier only
+            h2 = srvfam.gen_from_model(ctx, c2)
+            wide |= {json.dumps(h, sort_keys=True) for h in h2}
+            hists += h2
     budget = fam['budget'][1 if thorough else 0]
     ctx.rng.shuffle(hists)
     seen, picked, rest = set(), [], []
@@ -623,7 +737,10 @@ def run(ctx, pid):
     scen = []
     for h in picked:
         u = ctx.rng.choice(fam['units'])
-        scen.append({'tag': pid.lower() + '-model', 'cfg': fam['hcfg'](u), 'steps': srvfam.concretise(h, unit=u, maxwin_m=8, rng=ctx.rng), 'abs': h})
+        hc = fam['hcfg'](u)
+        if json.dumps(h, sort_keys=True) in wide:
+            hc['maxConc'] = 3
+        scen.append({'tag': pid.lower() + '-model', 'cfg': hc, 'steps': srvfam.concretise(h, unit=u, maxwin_m=8, rng=ctx.rng), 'abs': h})
     nmodel = len(scen)
     if fam.get('extra'):
         scen += fam['extra'](ctx, thorough)
